@@ -135,6 +135,14 @@ func compile(typ *runtime.Type, structName, fieldName string, structTypeToDecode
 }
 
 func isStringTagSupportedType(typ *runtime.Type) bool {
+	// as in encoding/json the option applies to what an unnamed pointer points to,
+	// and only one level deep
+	if typ.Kind() == reflect.Ptr && typ.Name() == "" {
+		typ = typ.Elem()
+		if typ.Kind() == reflect.Ptr {
+			return false
+		}
+	}
 	switch {
 	case implementsUnmarshalJSONType(runtime.PtrTo(typ)):
 		return false
